@@ -207,6 +207,10 @@ func (f *blockFixture) appendCrossing(rng *hx.Rng, priceFloor *big.Int, ws []*it
 			sum += g.ethTx.Gas() // (an upper bound of what the transactions before consume)
 		}
 	}
+	if rng.Chance(2, 3) { // a Cosmos transaction in front: from here on block positions and Ethereum indices differ
+		f.script = []int{97}
+		txs = append(txs, f.genTx(rng, priceFloor, ws))
+	}
 	delta := uint64(12_000 + rng.Intn(25_000))
 	if sum+delta+60_000 < uint64(f.maxGas) {
 		f.heavy, f.forceGas = true, uint64(f.maxGas)-sum-delta
